@@ -92,6 +92,7 @@ structure St where
                                            -- to earlier executions on the same apiRequest (their `done` is closed)
   execWave : Nat := 0                      -- ghost: `wave` when the current execution started
   exec : Nat := 0                          -- ghost: number of executions started before the current one
+  consumed : List Nat := []                -- ghost: every promise some chain/join task receives from
   snap : List (Nat × Res) := []            -- `delivered` as it was when the idle handler was last entered
   regWave : List (Nat × Nat × Nat) := []   -- (promise, batch key, wave counter at registration)
   deriving Repr
@@ -204,8 +205,13 @@ def step (c : Cfg) (s : St) : Label → Option St
                   registered := s.registered ++ [(k, item, p)],
                   regWave := (p, k, s.wave) :: s.regWave }
   | .chain t ps =>
-    if s.crashed || s.phase != .exec || t != s.next || !ps.all (fun p => decide (s.execStart ≤ p) && decide (p < s.next)) then none else
-    some { s with next := s.next + 1, running := ⟨t, ps⟩ :: s.running, chained := ps ++ s.chained }
+    -- a promise is a one-slot channel: whoever receives from it takes the result away. chain/join are
+    -- only ever given promises nobody else reads (pagination.go: the fresh promise a getter returned,
+    -- or the promise of the chain task just created) — `delivered` may therefore be kept as a log.
+    if s.crashed || s.phase != .exec || t != s.next ||
+        !ps.all (fun p => decide (s.execStart ≤ p) && decide (p < s.next) && !s.consumed.contains p) || !ps.Nodup then none else
+    some { s with next := s.next + 1, running := ⟨t, ps⟩ :: s.running, chained := ps ++ s.chained,
+                  consumed := ps ++ s.consumed }
   | .fin t r =>
     if s.crashed then none else
     match s.running.find? (fun x => x.id == t) with
